@@ -13,6 +13,9 @@ def run(prog, world, sem, rep):
     rep.rule("C06.d", "delegated_sum accumulates only delegations whose denom equals Parameters.underlying_coin_denom, of the hub's own delegations", 2)
     rep.rule("C06.f", "the re-synchronised State is persisted as computed (STATE.save of the recomputed value) and CheckSlashing runs it", 2)
 
+    rep.rule("C06.g", "recognition is unconditional: every success exit of the recompute function lies behind the comparison of the booked total with "
+             "the delegated total (no shortcut returns the stored State unchecked)", 1)
+
     rc = recompute_fns(prog, sem)
     rs = resync_fns(prog, sem)
     if len(rc) != 1 or len(rs) != 1:
@@ -54,6 +57,26 @@ def run(prog, world, sem, rep):
         rep.ob("C06.a", "%s lowered only when booked > delegated" % fld, bool(pass_edges) and not bad,
                "assignment of %s reachable without observing booked_sum > delegated_sum (strict)" % fld if bad or not pass_edges
                else "assignment behind delegated_sum < booked_sum", where(body, ds[0].bb), key="C06.a | %s" % fld)
+    # ---- C06.g no success exit around the comparison
+    # (two shortcuts are part of the design and carry their own observation: nothing is delegated at all, or nothing is booked at all)
+    cmp_blocks = {u for (u, _) in pass_edges}
+    allowed = set()
+    for blk in body.blocks:
+        if blk.term.kind == "switch" and blk.idx in be.cfg.live:
+            for succ, fl in sem.edge_facts(be, blk.idx).items():
+                for f in fl:
+                    if f[0] == "truth" and f[2] is True and f[1].op == "call":
+                        nm, a0 = f[1].info, world.ident(f[1].args[0], expand_ws=False) if f[1].args else None
+                        if nm.endswith("::is_empty") and a0 is not None and find(world.norm(a0, 0, False), lambda y: y.op == "call" and y.info.endswith("query_all_delegations")):
+                            allowed.add((blk.idx, succ))
+                        if nm.endswith("::is_zero") and a0 is not None and is_booked_sum(a0):
+                            allowed.add((blk.idx, succ))
+    okret = [b for (b, idx, k, x) in sem.ret_sites(be) if k in ("ok", "call", "libcall", "unknown") and b in be.cfg.live]
+    r0 = be.cfg.reach([0], removed=allowed, stop=cmp_blocks)
+    short = [b for b in okret if b in r0 and b not in cmp_blocks]
+    rep.ob("C06.g", "no success exit of the recompute function bypasses the booked-vs-delegated comparison", bool(cmp_blocks) and bool(okret) and not short,
+           "the recompute function can return successfully (block %s) without comparing the booked total with the delegations, other than for an empty delegation "
+           "list or an empty book: a slash in that state goes unrecognised" % (short,) if short else "every success exit passes the comparison (or has nothing delegated / booked)", where(body))
     # ---- C06.b shapes
     dn = world.norm(delegated, 0, False) if delegated is not None else None
     bd = by_field["total_bond_bsei_amount"][0]
